@@ -410,6 +410,39 @@ pub fn oracle_c13_ew(cfg: &EwCfg, tr: &EwTrace) -> Vec<Violation> {
 }
 
 // ------------------------------------------------------------------------------------------------
+// C12 at the endpoints: Unreliable / TimeSensitive packets submitted through Client::send / RemoteClient::send
+// ------------------------------------------------------------------------------------------------
+
+/// Single-fragment Unreliable and TimeSensitive packets are found on the wire by their payload: at most one datagram ever carries one,
+/// and a TimeSensitive one is first carried by a datagram sent no later than the step of the round in which send() was called (a client
+/// that was still connecting then keeps it queued; by the time the handshake completes at least one step() has passed).
+pub fn oracle_c12_ew(cfg: &EwCfg, tr: &EwTrace) -> Vec<Violation> {
+    let mut out = Vec::new();
+    let mut cnt: std::collections::HashMap<(usize, usize, u8), u32> = Default::default();
+    for c in tr.calls.iter() {
+        let (dir, i, chn, mode, size) = match c.act { Act::CSend(i, chn, m, s) => (0usize, i, chn, m, s), Act::SSend(i, chn, m, s) => (1, i, chn, m, s), _ => continue };
+        let idx = { let e = cnt.entry((dir, i, chn)).or_insert(0); let v = *e; *e += 1; v };
+        if !(mode == SendMode::Unreliable || mode == SendMode::TimeSensitive) || size < 16 || size > 1400 || i >= cfg.clients.len() { continue; }
+        if dir == 1 && !tr.s_connect_round[i].map_or(false, |r| r < c.round) { continue; }
+        let p = ew_payload(dir, i, chn, idx, size);
+        let src = if dir == 0 { caddr(i) } else { saddr() };
+        let carriers: Vec<&Dgram> = tr.wire.iter().filter(|d| !d.injected && d.src == src && (dir == 0 || d.dst == caddr(i))).filter(|d| matches!(&d.frame, Some(Frame::DataFrame(df)) if df.datagrams.iter().any(|g| g.data[..] == p[..]))).collect();
+        // a datagram duplicated or replayed by the network appears once in the list of datagrams sent
+        if carriers.len() > 1 {
+            out.push(viol("C12.once", format!("C12.once:endpoint:{}", if mode == SendMode::Unreliable { "U" } else { "T" }), format!("{:?} packet #{} of channel {} ({} B, {}) was transmitted {} times (rounds {:?})", mode, idx, chn, size, if dir == 0 { "client -> server" } else { "server -> client" }, carriers.len(), carriers.iter().map(|d| d.sent_round).collect::<Vec<_>>())));
+        }
+        if mode == SendMode::TimeSensitive {
+            if let Some(first) = carriers.iter().map(|d| d.sent_round).min() {
+                if first > c.round {
+                    out.push(viol("C12.ts-late", "C12.ts-late:endpoint".into(), format!("TimeSensitive packet #{} of channel {} ({} B, {}) was handed to send() in round {} and first transmitted in round {}, after the step() that followed its send()", idx, chn, size, if dir == 0 { "client -> server" } else { "server -> client" }, c.round, first)));
+                }
+            }
+        }
+    }
+    out
+}
+
+// ------------------------------------------------------------------------------------------------
 // C10: timeouts
 // ------------------------------------------------------------------------------------------------
 
@@ -683,7 +716,7 @@ pub fn oracle_c20_ew(cfg: &EwCfg, tr: &EwTrace) -> Vec<Violation> {
 // ------------------------------------------------------------------------------------------------
 
 pub const EO_C07: u32 = 1; pub const EO_C08: u32 = 2; pub const EO_C09: u32 = 4; pub const EO_C10: u32 = 8; pub const EO_C17: u32 = 16; pub const EO_C18: u32 = 32;
-pub const EO_ECHO: u32 = 64; pub const EO_READMIT: u32 = 128; pub const EO_KEEPALIVE: u32 = 256; pub const EO_SURVIVE_C02: u32 = 512; pub const EO_SURVIVE_C11: u32 = 1024; pub const EO_C20: u32 = 2048;
+pub const EO_ECHO: u32 = 64; pub const EO_READMIT: u32 = 128; pub const EO_KEEPALIVE: u32 = 256; pub const EO_SURVIVE_C02: u32 = 512; pub const EO_SURVIVE_C11: u32 = 1024; pub const EO_C20: u32 = 2048; pub const EO_C12: u32 = 4096; pub const EO_C13: u32 = 8192;
 
 #[derive(Clone)]
 pub struct EwSpec { pub tag: String, pub cfg: EwCfg, pub script: Arc<Vec<EwOp>>, pub env: EwEnv, pub d: usize, pub oracles: u32, pub n_raw: usize }
@@ -727,6 +760,8 @@ pub fn eval_ew(spec: &EwSpec, tr: &EwTrace) -> Vec<Violation> {
     if o & EO_SURVIVE_C02 != 0 { v.extend(oracle_survive(&spec.cfg, tr, "C02.survive")); }
     if o & EO_SURVIVE_C11 != 0 { v.extend(oracle_survive(&spec.cfg, tr, "C11.survive")); }
     if o & EO_C20 != 0 { v.extend(oracle_c20_ew(&spec.cfg, tr)); }
+    if o & EO_C12 != 0 { v.extend(oracle_c12_ew(&spec.cfg, tr)); }
+    if o & EO_C13 != 0 { v.extend(oracle_c13_ew(&spec.cfg, tr)); }
     // one violation per signature
     let mut out: Vec<Violation> = Vec::new();
     for x in v { if !out.iter().any(|y| y.sig == x.sig) { out.push(x); } }
